@@ -183,7 +183,7 @@ class C14(Check):
                          'store.add_map', 'store.get_map', 'store.iterate_map', 'slot_rereads']
 
     def generate(self, rng, tier, shard, nshards):
-        n = 900 if tier == 'quick' else 12000
+        n = 900 if tier == 'quick' else 10 ** 7
         dts = list(DTYPES)
         doms = list(DOMAINS)
         pnames = sorted(_pipelines())
